@@ -29,12 +29,13 @@ VARIABLES l,      \* next line of the trace
 vars == <<l, meta, g, L, F, FT, iv, prev, relax, taint, afterCrash, tw, viol, stats>>
 
 NoIv == [active |-> FALSE]
+NoLogs == [blog |-> <<>>, dlog |-> <<>>]
 NoPrev == [ok |-> FALSE, targets |-> {}]
 NoTw == [mode |-> 0, kind |-> "", k |-> 0, sums |-> <<>>, skip |-> FALSE]
 EmptyG == [srcs |-> <<>>, pools |-> <<>>, stmts |-> <<>>]
-Stats0 == [execs |-> 0, invokes |-> 0, starts |-> 0, nontrivial |-> 0, kf |-> 0]
+Stats0 == [execs |-> 0, invokes |-> 0, starts |-> 0, nontrivial |-> 0, kf |-> 0, cyclic |-> 0, died |-> 0, interrupted |-> 0, failing |-> 0, dry |-> 0, twins |-> 0]
 
-Init == /\ l = 1 /\ meta = [sc |-> "", run |-> 0, eskip |-> {}] /\ g = EmptyG
+Init == /\ l = 1 /\ meta = [sc |-> "", run |-> 0, eskip |-> {}, logs |-> NoLogs] /\ g = EmptyG
         /\ L = <<>> /\ F = {} /\ FT = {} /\ iv = NoIv /\ prev = NoPrev
         /\ relax = FALSE /\ taint = FALSE /\ afterCrash = FALSE /\ tw = NoTw /\ viol = {} /\ stats = Stats0
 
@@ -51,7 +52,7 @@ PoolDepth(p) == IF p = "console" THEN 1
 ---------------------------------------------------------------------------
 TReset ==
   /\ Is("Reset")
-  /\ meta' = [sc |-> E.sc, run |-> E.run, eskip |-> {}]
+  /\ meta' = [sc |-> E.sc, run |-> E.run, eskip |-> {}, logs |-> NoLogs]
   /\ g' = E.g
   /\ L' = [i \in 1..Len(E.g.stmts) |-> LastNone]
   /\ F' = {} /\ FT' = {} /\ iv' = NoIv /\ prev' = NoPrev /\ relax' = FALSE /\ taint' = FALSE /\ afterCrash' = FALSE
@@ -78,21 +79,22 @@ TInvoke ==
   /\ Is("Invoke")
   /\ LET T == E.tree
          tg == ToS(E.targets)
-         acyc == Acyclic(g, T, L)
-         need == IF acyc THEN Needed(g, T, L, tg) ELSE {}
+         need == Needed(g, T, L, tg)
+         acyc == AcyclicN(g, T, L, need)
          exp == IF acyc THEN ExpectedRun(g, T, L, F, tg) ELSE {}
          expS == IF acyc THEN ExpectedRunSkip(g, T, L, F, tg) ELSE {}
          expNoF == IF acyc /\ F # {} THEN ExpectedRun(g, T, L, {}, tg) ELSE exp
          missingSrc == \E i \in need : \E f \in ManIn(St(g, i)) \cup ToS(St(g, i).oo) :
                           Prod(g, f) = 0 /\ ~Exists(T, f)
      IN iv' = [active |-> TRUE, targets |-> tg, j |-> E.j, k |-> E.k, dry |-> E.dry, tok |-> E.tok,
-               fail |-> E.fail, T0 |-> T, acyc |-> acyc, need |-> need, exp |-> exp, expS |-> expS,
+               fail |-> E.fail, T0 |-> T, acyc |-> acyc, need |-> need, cyc |-> IF acyc THEN {} ELSE CycleStmts(g, T, L, need), exp |-> exp, expS |-> expS,
                expNoF |-> expNoF, kfT |-> (exp \ expNoF) \cap FT,
                missingSrc |-> missingSrc, editrun |-> E.editrun, intr |-> E.intr,
                started |-> <<>>, doneOK |-> {}, failed |-> {}, codes |-> {}, run |-> {}, nfail |-> 0,
                skipped |-> {}, ticks |-> {}, stStarted |-> {}, stFinished |-> {}, cnt |-> [tot |-> 0, st |-> 0, fin |-> 0],
-               interrupted |-> FALSE, killed |-> {}, partial |-> {}, startsAfterBudget |-> 0]
-  /\ stats' = [stats EXCEPT !.invokes = @ + 1]
+               interrupted |-> FALSE, killed |-> {}, partial |-> {}, startsAfterBudget |-> 0, loaded |-> NoLogs]
+  /\ stats' = [stats EXCEPT !.invokes = @ + 1, !.cyclic = @ + (IF AcyclicN(g, E.tree, L, Needed(g, E.tree, L, ToS(E.targets))) THEN 0 ELSE 1),
+                             !.failing = @ + (IF Len(E.fail) > 0 THEN 1 ELSE 0), !.dry = @ + (IF E.dry THEN 1 ELSE 0)]
   /\ UNCHANGED <<meta, g, L, F, FT, prev, relax, taint, afterCrash, tw, viol>> /\ Step
 
 \* -- hook events from ninja ---------------------------------------------------
@@ -210,8 +212,13 @@ TAbort ==
                                         !.partial = @ \cup {E.killed[x].s : x \in {y \in DOMAIN E.killed : E.killed[y].partial}}, !.run = {}] ELSE iv
   /\ UNCHANGED <<meta, g, L, F, FT, prev, relax, taint, afterCrash, tw, viol, stats>> /\ Step
 
+TLoaded ==
+  /\ Is("Loaded")
+  /\ iv' = IF iv.active THEN [iv EXCEPT !.loaded = [blog |-> E.blog, dlog |-> E.dlog]] ELSE iv
+  /\ UNCHANGED <<meta, g, L, F, FT, prev, relax, taint, afterCrash, tw, viol, stats>> /\ Step
+
 TSkip ==
-  /\ l <= Len(Tr) /\ E.e \in {"Loaded", "Scanned", "Msg", "PoolsAtEnd", "Crash", "SpawnFail", "Logs", "EndRun"}
+  /\ l <= Len(Tr) /\ E.e \in {"Scanned", "Msg", "PoolsAtEnd", "Crash", "SpawnFail", "Logs", "EndRun"}
   /\ UNCHANGED <<meta, g, L, F, FT, iv, prev, relax, taint, afterCrash, tw, viol, stats>> /\ Step
 
 \* -- Exit ----------------------------------------------------------------------
@@ -222,7 +229,7 @@ TExit ==
   /\ LET T == E.tree
          startedSet == ToS(iv.started)
          ok == E.code = 0
-         clean == CleanContent(g, T, L)
+         clean == IF iv.acyc THEN CleanContentN(g, T, L, iv.need) ELSE Base(g, T)
          stale == {f \in UNION {Outs(St(g, i)) : i \in {x \in iv.need : ~St(g, x).phony}} : Ct(T, f) # clean[f]}
          skipStmts == {i \in iv.skipped : UsesDeps(St(g, i)) /\ L[i].rec # {}}
          \* statements whose recorded dependencies were not consulted, in this or an earlier invocation of the history
@@ -256,7 +263,7 @@ TExit ==
          anyFail == iv.failed # {}
          v05a == IF anyFail /\ (ok \/ E.code \notin iv.codes) /\ ~iv.interrupted
                  THEN {V("C05", "exit status is not the status of a failed command", "")} ELSE {}
-         v05b == IF ~anyFail /\ ~ok /\ iv.acyc /\ ~iv.missingSrc /\ ~iv.interrupted /\ E.mc \notin {"dyndep", "other", "parse"}
+         v05b == IF ~anyFail /\ ~ok /\ iv.acyc /\ E.mc # "cycle" /\ ~iv.missingSrc /\ ~iv.interrupted /\ E.mc \notin {"dyndep", "other", "parse"}
                  THEN {V("C05", "non-zero exit without any failed command", "")} ELSE {}
          notDown == iv.exp \ Downstream(g, iv.T0, L, iv.failed)
          v05c == IF exact /\ anyFail /\ BudgetLeft /\ ~(notDown \subseteq startedSet)
@@ -295,7 +302,29 @@ TExit ==
                              ELSE IF ref.ok # sum.ok THEN "different build result than with the discovered information written into the manifest"
                              ELSE "different final contents than with the discovered information written into the manifest",
                         IF skipStmts # {} \/ diffBySkip(ref.started, sum.started) THEN "KF-DEPS-SKIPPED" ELSE "")} ELSE {}
-         newv == vtw \cup v03 \cup v01 \cup v02 \cup v05f \cup v05a \cup v05b \cup v05c \cup v05d \cup v05e \cup v06 \cup v16 \cup v20 \cup v07
+         \* C17: a cycle in the needed part of the graph is diagnosed, spelled out, and none of its commands run
+         hops == IF "cyc" \in DOMAIN E THEN E.cyc ELSE <<>>
+         hopOK(k) == LET p == Prod(g, hops[k]) IN p # 0 /\ hops[k + 1] \in All(g, iv.T0, L, p) \cup (IF St(g, p).dd # "" THEN {St(g, p).dd} ELSE {})
+         cycleNoRec == AcyclicN(g, iv.T0, LNoRec(L, skipStmts), Needed(g, iv.T0, LNoRec(L, skipStmts), iv.targets))
+         kf17 == IF ~iv.acyc /\ skipStmts # {} /\ cycleNoRec THEN "KF-DEPS-SKIPPED" ELSE ""
+         v17 == (IF ~iv.acyc /\ ~iv.dry /\ (ok \/ E.mc # "cycle") /\ ~iv.missingSrc /\ ~(\E i \in iv.failed : TRUE)
+                 THEN {V("C17", "dependency cycle in the needed part of the graph was not diagnosed", kf17)} ELSE {})
+                \cup (IF ~iv.acyc /\ startedSet \cap iv.cyc # {} THEN {V("C17", "a command on a dependency cycle was run", kf17)} ELSE {})
+                \cup (IF E.mc = "cycle" /\ iv.acyc THEN {V("C17", "acyclic graph rejected as cyclic", "")} ELSE {})
+                \cup (IF E.mc = "cycle" /\ ~iv.acyc /\ (Len(hops) < 2 \/ hops[1] # hops[Len(hops)] \/ \E k \in 1..(Len(hops) - 1) : ~hopOK(k))
+                      THEN {V("C17", "the printed cycle is not a cycle of the graph", "")} ELSE {})
+         \* C19: a dry run starts no command, leaves tree and logs alone and lists what a real build would run
+         restatInNeed == \E i \in iv.need : Restat(St(g, i))
+         v19 == IF ~iv.dry THEN {} ELSE
+                (IF startedSet # {} THEN {V("C19", "a dry run started a command", "")} ELSE {})
+                \cup (IF \E f \in ToS(g.srcs) \cup AllOuts(g) \cup {DepfilePath(St(g, i)) : i \in {j \in Ids(g) : St(g, j).deps \in {"depfile", "gcc"}}} :
+                            Exists(T, f) # Exists(iv.T0, f) \/ (Exists(T, f) /\ Ent(T, f) # Ent(iv.T0, f))
+                      THEN {V("C19", "a dry run changed a source, an output or a depfile", "")} ELSE {})
+                \cup (IF E.logs.blog # iv.loaded.blog \/ E.logs.dlog # iv.loaded.dlog THEN {V("C19", "a dry run changed the meaning of a log", "")} ELSE {})
+                \cup (IF iv.acyc /\ ~relax /\ ~taint /\ ~iv.missingSrc /\ ok /\ (~(iv.exp \subseteq iv.stStarted) \/ (~restatInNeed /\ iv.stStarted # iv.exp))
+                      THEN {V("C19", "the commands listed by the dry run are not those a real build runs",
+                               IF iv.kfT # {} /\ iv.stStarted = iv.expNoF THEN "KF-FAIL-TOUCHED" ELSE IF skipStmts # {} \/ diffBySkip(iv.stStarted, iv.exp) THEN "KF-DEPS-SKIPPED" ELSE "")} ELSE {})
+         newv == v19 \cup v17 \cup vtw \cup v03 \cup v01 \cup v02 \cup v05f \cup v05a \cup v05b \cup v05c \cup v05d \cup v05e \cup v06 \cup v16 \cup v20 \cup v07
          kfHit == \E x \in newv : x.kf # ""
      IN /\ viol' = viol \cup newv
         /\ relax' = (relax \/ iv.interrupted)
@@ -304,10 +333,11 @@ TExit ==
         /\ tw' = IF tw.mode = 1 THEN [tw EXCEPT !.sums = Append(@, sum), !.k = @ + 1]
                   ELSE IF tw.mode = 2 THEN [tw EXCEPT !.k = @ + 1, !.skip = @ \/ (tw.k + 1 <= Len(tw.sums) /\ ref.missing)] ELSE tw
         /\ prev' = [ok |-> ok /\ ~iv.editrun /\ ~iv.dry /\ ~kfHit, targets |-> iv.targets]
-        /\ stats' = [stats EXCEPT !.nontrivial = @ + (IF startedSet # {} THEN 1 ELSE 0),
+        /\ stats' = [stats EXCEPT !.nontrivial = @ + (IF startedSet # {} THEN 1 ELSE 0), !.interrupted = @ + (IF iv.interrupted THEN 1 ELSE 0),
+                                  !.twins = @ + (IF cmp THEN 1 ELSE 0),
                                   !.kf = @ + (IF kfHit THEN 1 ELSE 0)]
   /\ iv' = NoIv
-  /\ meta' = [meta EXCEPT !.eskip = @ \cup {i \in iv.skipped : UsesDeps(St(g, i)) /\ L[i].rec # {}}]
+  /\ meta' = [meta EXCEPT !.eskip = @ \cup {i \in iv.skipped : UsesDeps(St(g, i)) /\ L[i].rec # {}}, !.logs = [blog |-> E.logs.blog, dlog |-> E.logs.dlog]]
   /\ UNCHANGED <<g, L, F, FT>> /\ Step
 
 \* the process died (crash point) or ended abnormally
@@ -315,7 +345,8 @@ TDied ==
   /\ Is("Died")
   /\ iv' = NoIv /\ relax' = TRUE /\ prev' = NoPrev /\ afterCrash' = TRUE
   /\ L' = [i \in DOMAIN L |-> IF iv.active /\ i \in iv.doneOK THEN [L[i] EXCEPT !.unsure = TRUE] ELSE L[i]]
-  /\ UNCHANGED <<meta, g, F, FT, taint, tw, viol, stats>> /\ Step
+  /\ stats' = [stats EXCEPT !.died = @ + 1]
+  /\ UNCHANGED <<meta, g, F, FT, taint, tw, viol>> /\ Step
 
 TAbnormal ==
   /\ l <= Len(Tr) /\ E.e \in {"Abnormal", "Bad"}
@@ -330,7 +361,7 @@ TFlush ==
   /\ l' = l + 1
   /\ UNCHANGED <<meta, g, L, F, FT, iv, prev, relax, taint, afterCrash, tw, viol, stats>>
 
-Next == TReset \/ TEnv \/ TInvoke \/ THook \/ TStatus \/ TStart \/ TEditRun \/ TDone \/ TInterrupt
+Next == TReset \/ TEnv \/ TInvoke \/ TLoaded \/ THook \/ TStatus \/ TStart \/ TEditRun \/ TDone \/ TInterrupt
         \/ TAbort \/ TSkip \/ TExit \/ TDied \/ TAbnormal \/ TFlush
 
 Spec == Init /\ [][Next]_vars
